@@ -152,7 +152,7 @@ Fixpoint klass (fuel : nat) (P : prog) (fr : frame) : N :=
                             then 1%N
                             else if existsb (fun n => mem_str n given) pgs then 3%N
                             else if negb (N.eqb k' 0) then k'
-                            else if (npos <=? length (f_params (fr_fn fr'))) && nodup_strs given
+                            else if (npos <=? npos_cap (fr_fn fr')) && nodup_strs given
                                     && forallb (fun g => mem_str g (names (skipn npos R'))) given
                             then 0%N else 9%N
                         end
